@@ -645,6 +645,47 @@ def run_independent_order(chk, F):
     chk.expect_count('E9-independent-order', 'size-indexed rebuild loops', n, 1)
 
 
+def run_self_contraction(chk, F):
+    """E12-distinct-contraction: `contraction(x, y)` of the lazy map ends by erasing the bucket of the vertex that went
+    away (`t0.erase(d)`): every path to that statement has decided that the two arguments differ (`x == y` false, or a
+    test of the two locals they were copied to) - with x == y the loop has just stored the simplices of x again and the
+    erase removes them from the index."""
+    fs = [f for f in F.functions if f.get('clsname') == 'Lazy_toplex_map' and f['name'] == 'contraction' and
+          f['inst'] in (0, 2) and f.get('body') is not None]
+    if len(fs) != 1:
+        raise AnalysisBroken('C16: Lazy_toplex_map::contraction not found')
+    f = fs[0]
+    a, b = f['params'][0]['n'], f['params'][1]['n']
+
+    def cl(x):
+        if ir.is_call(x) and ir.call_name(x) == 'erase' and ir.call_receiver(x) is not None and \
+                ir.show(ir.call_receiver(x)).replace('this->', '') == 't0':
+            return ['ERASE']
+        return []
+    if not ir.contains(f['body'], lambda y: 'ERASE' in cl(y)):
+        chk.ob('E12-distinct-contraction', 'Lazy_toplex_map::contraction erases no bucket itself',
+               '%s:%d' % (rel(f['file']), f['line']), True, '', key='E12|Lazy_toplex_map::contraction|distinct',
+               nontrivial=False)
+        return
+    ps = paths.enumerate_paths(f, cl, loop_mode='01', keep_conds=True, cap=20000)
+    bad = None
+    for p_ in ps:
+        distinct = False
+        for tag, node in p_.events:
+            if tag == '?' and not isinstance(node[0], tuple):
+                t = ir.show(node[0]).replace(' ', '').strip('()')
+                if (t in ('%s==%s' % (a, b), '%s==%s' % (b, a), 'k==d', 'd==k') and not node[1]) or \
+                        (t in ('%s!=%s' % (a, b), '%s!=%s' % (b, a), 'k!=d', 'd!=k') and node[1]):
+                    distinct = True
+            elif tag == 'ERASE' and not distinct and bad is None:
+                bad = node
+    chk.ob('E12-distinct-contraction', 'Lazy_toplex_map::contraction erases the bucket of the contracted vertex only '
+           'when the two vertices differ (%d paths)' % len(ps), '%s:%d' % (rel(f['file']), f['line']), bad is None,
+           '' if bad is None else 'line %s: `%s` is reached with %s == %s: the simplices of that vertex were just stored '
+           'again and leave the index' % (bad.get('l'), ir.show(bad)[:30], a, b),
+           key='E12|Lazy_toplex_map::contraction|distinct')
+
+
 def run(tier, replay=None):
     chk = Check('C16', tier,
                 'Static decision of one information-flow clause of the toplex maps: in every loop over maximal '
@@ -712,6 +753,7 @@ def run(tier, replay=None):
     run_heap_not_copied(chk, F)
     run_shared_immutable(chk, F)
     run_independent_order(chk, F)
+    run_self_contraction(chk, F)
     chk.count('erase-and-reinsert loops', n_loops)
     chk.expect_count('E10-provenance', 'erase-and-reinsert loops', n_loops, 6)
     chk.assumptions += ['clang 14 parser', 'dependence is syntactic def-use over the loop body (sound over-approximation '
